@@ -15,8 +15,11 @@ From NV Require Import Fasta.Layout Fasta.LayoutProofs Fasta.Indexer Fasta.Index
 From NV Require Import Fasta.Bgzip Fasta.BgzipProofs Fasta.ViaFile Fasta.ViaFileProofs
                        Fasta.AsyncQuery Fasta.AsyncQueryProofs Fasta.FastqGrammar Fasta.FastqGrammarProofs
                        Fasta.FastqGrammarDelivery.
+From NV Require Import Fasta.BgzipGzi Fasta.BgzipGziProofs Fasta.BgzipBytes Fasta.BgzipBytesProofs
+                       Fasta.BgzipFile Fasta.BgzipFileProofs Fasta.FastqIndexGrammar Fasta.FastqIndexGrammarProofs.
 From NV Require Async.Lines.
-From NV Require Bgzf.Vpos Bgzf.ReaderOps Bgzf.FlatRef Bgzf.ReaderOpsProofs Index.TextIndex.
+From NV Require Bgzf.Vpos Bgzf.Gzi Bgzf.GziBs Bgzf.Frame Bgzf.Reader Bgzf.Inflate Bgzf.InflateSpec Bgzf.ReaderOps Bgzf.FlatRef
+                Bgzf.ReaderOpsProofs Index.TextIndex Io.BgzfRead.
 From NV Require Import Io.Source Io.FastaScan Io.Run.
 Import ListNotations.
 Open Scope N_scope.
@@ -635,3 +638,275 @@ Proof.
            ltac:(intros H; vm_compute in H; intuition discriminate)
            ltac:(intros H; vm_compute in H; intuition discriminate)).
 Qed.
+
+(* ================= seventh wave =================
+
+   ---- ANY correct gzi index ----
+
+   [query_bgzf_any] (NV.Fasta.BgzipGzi) is Reader::query on bgzf::io::IndexedReader with the gzi
+   lookup modelled EXACTLY (C02's GziBs: the binary search of slice::partition_point, so the model is
+   the implementation on unsorted / hostile indexes too) and keeps the reader state.
+   [gzi_correct F idx]: for every byte p of the text, the entry the binary search selects names the
+   block that holds p.  For every such index, every state of the reader satisfying C02's invariant,
+   every fai record of the text and every region with 1 <= start <= length: exactly the bases of the
+   naive parse. *)
+Theorem c11_bgzf_any_gzi_query_exact : forall F idx st0 s0 recs err r chk s e,
+  ReaderOpsProofs.wf F -> FlatRef.total_csize F <= Vpos.MAX_COMPRESSED_POSITION -> gzi_correct F idx ->
+  ReaderOpsProofs.Inv F st0 s0 ->
+  index_file (bz_text F) = (recs, err) -> In r recs ->
+  exists body, record_lines (bz_text F) r body /\
+    let B := naive_bases body in
+    let st := match s with Some p => p | None => 1 end in
+    let en := match e with Some p => p | None => usize_max end in
+    heads_ok body ->
+    nth (N.to_nat (st - 1)) B 0 <> CR -> nth (N.to_nat (st - 1)) B 0 <> GT ->
+    1 <= st -> st <= f_len r -> st <= en ->
+    fst (query_bgzf_any chk F idx st0 r s e)
+    = ZOk (QOk (firstn (N.to_nat (en - st + 1)) (skipn (N.to_nat (st - 1)) B))).
+Proof. exact query_bgzf_any_exact. Qed.
+Print Assumptions c11_bgzf_any_gzi_query_exact.
+
+(* which indexes are correct: the index of the file with the entries of ANY set of EMPTY blocks left
+   out (keep says which are kept) - no hypothesis on the file; [] keeps all = the file's own index;
+   htslib's index (no entry for the EOF block) is another instance *)
+Theorem c11_gzi_sparse_correct : forall keep F, gzi_correct F (gzi_sparse_of keep F).
+Proof. exact gzi_sparse_correct. Qed.
+Print Assumptions c11_gzi_sparse_correct.
+
+Theorem c11_gzi_sparse_all : forall F, gzi_sparse_of [] F = ReaderOps.gzi_of F.
+Proof. exact gzi_sparse_all. Qed.
+Print Assumptions c11_gzi_sparse_all.
+
+(* the seek itself: when the selected entry names the block holding byte p, the reader ends up in a
+   state refining "flat offset p" and reports Ok p *)
+Theorem c11_bgzf_seek_lands : forall F idx st0 s0 p,
+  ReaderOpsProofs.wf F -> FlatRef.total_csize F <= Vpos.MAX_COMPRESSED_POSITION ->
+  ReaderOpsProofs.Inv F st0 s0 -> gzi_lands F idx p ->
+  snd (GziBs.seek_by_uncompressed_position_bs true F idx st0 p) = Vpos.Ok p /\
+  ReaderOpsProofs.Inv F (fst (GziBs.seek_by_uncompressed_position_bs true F idx st0 p))
+                      (FlatRef.f_seek_flat (FlatRef.chunks F) p).
+Proof. intros F idx st0 s0 p Hwf Hmax. exact (seek_lands F Hwf Hmax idx st0 s0 p). Qed.
+Print Assumptions c11_bgzf_seek_lands.
+
+(* every state reached by a valid history of calls made WITH THAT INDEX satisfies the invariant *)
+Theorem c11_bgzf_any_gzi_history : forall F idx,
+  ReaderOpsProofs.wf F -> FlatRef.total_csize F <= Vpos.MAX_COMPRESSED_POSITION -> gzi_correct F idx ->
+  forall ops st s, ops_valid_any F ops -> ReaderOpsProofs.Inv F st s ->
+  exists s', ReaderOpsProofs.Inv F (run_state_bs F idx st ops) s'.
+Proof. exact reach_inv_any. Qed.
+Print Assumptions c11_bgzf_any_gzi_history.
+
+(* the boundary of the statement: an index that lacks the entry of a DATA block is not correct, and
+   the query silently returns other bytes (ex_frames; the entry (109,11) of the block ">t\nGG\n" is
+   missing: the seek lands at the end of the block before it, the reader sees '>' at a line start,
+   and the whole record t = "GG" comes back empty) *)
+Example c11_bgzf_gzi_missing_entry_wrong :
+  fst (query_bgzf_any true ex_frames [(40, 6); (68, 6); (148, 17)] (ReaderOps.init ex_frames)
+         (mkfai [116] 2 14 2 3) None None) = ZOk (QOk [])
+  /\ fst (query_bgzf_any true ex_frames (ReaderOps.gzi_of ex_frames) (ReaderOps.init ex_frames)
+            (mkfai [116] 2 14 2 3) None None) = ZOk (QOk [71; 71]).
+Proof. split; vm_compute; reflexivity. Qed.
+
+(* ---- the virtual position after a query ----
+   after a query whose start lies in the record, virtual_position() of the BGZF reader is defined,
+   names (C02's denote) a flat offset o of the file with pos <= o <= |text| (pos = the byte offset
+   of the first base), and the reader state refines "flat offset o": every later call behaves as on
+   the uncompressed text from o on (C02's refinement theorems apply) *)
+Theorem c11_bgzf_query_vpos : forall F idx st0 s0 recs err r chk s e,
+  ReaderOpsProofs.wf F -> FlatRef.total_csize F <= Vpos.MAX_COMPRESSED_POSITION -> gzi_correct F idx ->
+  ReaderOpsProofs.Inv F st0 s0 ->
+  index_file (bz_text F) = (recs, err) -> In r recs ->
+  let st := match s with Some p => p | None => 1 end in
+  1 <= st -> st <= f_len r ->
+  exists pos v s',
+    fai_query_gen chk r (st - 1) = Some pos /\
+    ReaderOps.virtual_position (snd (query_bgzf_any chk F idx st0 r s e)) = Vpos.Ok v /\
+    FlatRef.denote F v = Some (FlatRef.off s') /\ pos <= FlatRef.off s' /\
+    FlatRef.off s' <= FlatRef.total_dlen F /\
+    ReaderOpsProofs.Inv F (snd (query_bgzf_any chk F idx st0 r s e)) s'.
+Proof. exact query_bgzf_any_exact_vpos. Qed.
+Print Assumptions c11_bgzf_query_vpos.
+
+(* ---- from the FILE BYTES, under any delivery ----
+   [bz_frames_of_bytes cap src] (NV.Fasta.BgzipBytes): the frames bgzf::io::Reader parses from a
+   scripted byte source (short reads, Interrupted; raw or behind BufReader::with_capacity(cap)):
+   C12's delivered frame reader + C01's parse_block with the executable inflater.  They are the
+   frames of the whole-buffer reader ... *)
+Theorem c11_bgzf_frames_any_delivery : forall data sc cap,
+  bz_frames_of_bytes cap (mkSource data sc) = BgzfRead.whole_frames Inflate.inflate (S (length data)) data.
+Proof. exact frames_any_delivery. Qed.
+Print Assumptions c11_bgzf_frames_any_delivery.
+
+(* ... a file that is read to its end without an error yields a well-formed frame list below the
+   48-bit limit (the two hypotheses of every BGZF theorem above are DISCHARGED) ... *)
+Theorem c11_bgzf_frames_wellformed : forall data sc cap F,
+  Forall InflateSpec.is_byte data -> Frame.lenN data <= Vpos.MAX_COMPRESSED_POSITION ->
+  bz_frames_of_bytes cap (mkSource data sc) = (F, Frame.Ok tt) ->
+  ReaderOpsProofs.wf F /\ FlatRef.total_csize F <= Vpos.MAX_COMPRESSED_POSITION.
+Proof. exact frames_of_bytes_ok. Qed.
+Print Assumptions c11_bgzf_frames_wellformed.
+
+(* ... the text the FASTA layer sees is C01's read_to_end view of the bytes and the indexer reading
+   through the BGZF reader returns the index of that text ... *)
+Theorem c11_bgzf_index_from_bytes : forall data sc cap F,
+  Forall InflateSpec.is_byte data -> bz_frames_of_bytes cap (mkSource data sc) = (F, Frame.Ok tt) ->
+  index_bgzf F = index_file (bz_text F) /\
+  bz_text F = fst (Reader.reader_read_to_end Inflate.inflate data).
+Proof. exact index_bgzf_from_bytes. Qed.
+Print Assumptions c11_bgzf_index_from_bytes.
+
+(* ... THE SEEK TIE: the byte-level seek of the inner stream to a block boundary c followed by
+   reading on (under its own arbitrary delivery) parses exactly the frames C02's drop_to denotes ... *)
+Theorem c11_bgzf_seek_tie : forall data sc cap F c post sc' cap',
+  bz_frames_of_bytes cap (mkSource data sc) = (F, Frame.Ok tt) ->
+  ReaderOps.drop_to F 0 c = Some post ->
+  bz_frames_of_bytes cap' (mkSource (skipn (N.to_nat c) data) sc') = (post, Frame.Ok tt).
+Proof. exact frames_after_seek. Qed.
+Print Assumptions c11_bgzf_seek_tie.
+
+(* ... hence c11_bgzf_query_exact from the bytes (the file's own index, any valid history) ... *)
+Theorem c11_bgzf_query_exact_from_bytes : forall data sc cap F ops recs err r chk s e,
+  Forall InflateSpec.is_byte data -> Frame.lenN data <= Vpos.MAX_COMPRESSED_POSITION ->
+  bz_frames_of_bytes cap (mkSource data sc) = (F, Frame.Ok tt) ->
+  ReaderOpsProofs.ops_valid F ops ->
+  index_file (bz_text F) = (recs, err) -> In r recs ->
+  exists body, record_lines (bz_text F) r body /\
+    let B := naive_bases body in
+    let st := match s with Some p => p | None => 1 end in
+    let en := match e with Some p => p | None => usize_max end in
+    heads_ok body ->
+    nth (N.to_nat (st - 1)) B 0 <> CR -> nth (N.to_nat (st - 1)) B 0 <> GT ->
+    1 <= st -> st <= f_len r -> st <= en ->
+    query_bgzf chk F (ReaderOps.gzi_of F)
+      (ReaderOps.run_state true F (ReaderOps.gzi_of F) (ReaderOps.init F) ops) r s e
+    = ZOk (QOk (firstn (N.to_nat (en - st + 1)) (skipn (N.to_nat (st - 1)) B))).
+Proof. exact query_bgzf_exact_from_bytes. Qed.
+Print Assumptions c11_bgzf_query_exact_from_bytes.
+
+(* ... and the whole stack: file bytes, any delivery, ANY correct gzi index, any valid history of
+   prior calls made with that index -> exactly the bases of the naive parse of the inflated text,
+   and the virtual position afterwards *)
+Theorem c11_bgzf_file_query_exact : forall data sc cap F idx ops recs err r chk s e,
+  Forall InflateSpec.is_byte data -> Frame.lenN data <= Vpos.MAX_COMPRESSED_POSITION ->
+  bz_frames_of_bytes cap (mkSource data sc) = (F, Frame.Ok tt) ->
+  gzi_correct F idx -> ops_valid_any F ops ->
+  index_file (bz_text F) = (recs, err) -> In r recs ->
+  let st0 := run_state_bs F idx (ReaderOps.init F) ops in
+  exists body, record_lines (bz_text F) r body /\
+    let B := naive_bases body in
+    let st := match s with Some p => p | None => 1 end in
+    let en := match e with Some p => p | None => usize_max end in
+    heads_ok body ->
+    nth (N.to_nat (st - 1)) B 0 <> CR -> nth (N.to_nat (st - 1)) B 0 <> GT ->
+    1 <= st -> st <= f_len r -> st <= en ->
+    fst (query_bgzf_any chk F idx st0 r s e)
+    = ZOk (QOk (firstn (N.to_nat (en - st + 1)) (skipn (N.to_nat (st - 1)) B))).
+Proof. exact query_bgzf_file_exact. Qed.
+Print Assumptions c11_bgzf_file_query_exact.
+
+Theorem c11_bgzf_file_query_vpos : forall data sc cap F idx ops recs err r chk s e,
+  Forall InflateSpec.is_byte data -> Frame.lenN data <= Vpos.MAX_COMPRESSED_POSITION ->
+  bz_frames_of_bytes cap (mkSource data sc) = (F, Frame.Ok tt) ->
+  gzi_correct F idx -> ops_valid_any F ops ->
+  index_file (bz_text F) = (recs, err) -> In r recs ->
+  let st0 := run_state_bs F idx (ReaderOps.init F) ops in
+  let st := match s with Some p => p | None => 1 end in
+  1 <= st -> st <= f_len r ->
+  exists pos v s',
+    fai_query_gen chk r (st - 1) = Some pos /\
+    ReaderOps.virtual_position (snd (query_bgzf_any chk F idx st0 r s e)) = Vpos.Ok v /\
+    FlatRef.denote F v = Some (FlatRef.off s') /\ pos <= FlatRef.off s' /\
+    FlatRef.off s' <= FlatRef.total_dlen F /\
+    ReaderOpsProofs.Inv F (snd (query_bgzf_any chk F idx st0 r s e)) s'.
+Proof. exact query_bgzf_file_vpos. Qed.
+Print Assumptions c11_bgzf_file_query_vpos.
+
+(* the extracted entry point (kind qyb) does not depend on the delivery *)
+Theorem c11_bgzf_file_any_delivery : forall data sc cap idx prior qs,
+  index_and_query_bgzf_file cap (mkSource data sc) idx prior qs
+  = match BgzfRead.whole_frames Inflate.inflate (S (length data)) data with
+    | (F, Frame.Ok tt) => Some (F, index_bgzf F, index_and_query_bgzf_any F idx prior qs)
+    | _ => None
+    end.
+Proof. exact index_and_query_bgzf_file_any_delivery. Qed.
+Print Assumptions c11_bgzf_file_any_delivery.
+
+(* non-vacuity: a real 101-byte BGZF file (a stored block ">s\nACGT\n", a fixed-Huffman block with
+   an LZ77 match ">t\nGGGGGGGGGGGG\n", the EOF block) delivered 7, Interrupted, 1, 30, Interrupted
+   behind a 3-byte BufReader *)
+Example c11_example_bgzf_bytes :
+  index_and_query_bgzf_file 3 (mkSource ex_bytes ex_script) [(39, 8)] [ReaderOps.SeekU 20; ReaderOps.Read 3]
+    [([116], (Some 2, Some 5)); ([115], (None, None))]
+  = Some ([ReaderOps.mkFrame 39 [62; 115; 10; 65; 67; 71; 84; 10];
+           ReaderOps.mkFrame 34 [62; 116; 10; 71; 71; 71; 71; 71; 71; 71; 71; 71; 71; 71; 71; 10];
+           ReaderOps.mkFrame 28 []],
+          ([mkfai [115] 4 3 4 5; mkfai [116] 12 11 12 13], None),
+          [(ZOk (QOk [71; 71; 71; 71]), Vpos.Ok (Vpos.pack 39 8)); (ZOk (QOk [65; 67; 71; 84]), Vpos.Ok (Vpos.pack 39 0))]).
+Proof. vm_compute. reflexivity. Qed.
+
+(* ---- the FASTQ INDEXER's acceptance grammar ----
+   fastq::io::Indexer validates only the definition: [fqi_parses f off recs] (NV.Fasta.FastqIndexGrammar)
+     file   ::= record*
+     record ::= '@' L L L L     L = a line up to and including its LF, or the unterminated (possibly
+                                    empty) rest of the input
+   with the name cut out of the first line valid UTF-8; no '+' check, no length check, a record cut
+   short by the end of the input is accepted.  Both directions, with exactly the index records the
+   grammar assigns (name, length = bases of the second line without trailing whitespace, offsets). *)
+Theorem c11_fastq_indexer_accepts_grammar : forall f recs,
+  index_qfile f = (recs, None) <-> fqi_parses f 0 recs.
+Proof. exact indexer_accepts_grammar. Qed.
+Print Assumptions c11_fastq_indexer_accepts_grammar.
+
+Theorem c11_fastq_indexer_accepts_iff : forall f, fqi_accepts f = true <-> snd (index_qfile f) = None.
+Proof. exact fqi_accepts_iff. Qed.
+Print Assumptions c11_fastq_indexer_accepts_iff.
+
+Theorem c11_fastq_indexer_accepts_decides : forall f,
+  fqi_accepts f = true <-> exists recs, fqi_parses f 0 recs.
+Proof. exact fqi_accepts_grammar. Qed.
+Print Assumptions c11_fastq_indexer_accepts_decides.
+
+Theorem c11_fastq_indexer_parses_functional : forall f off r1 r2,
+  fqi_parses f off r1 -> fqi_parses f off r2 -> r1 = r2.
+Proof. exact fqi_parses_functional. Qed.
+Print Assumptions c11_fastq_indexer_parses_functional.
+
+(* the only error of the indexer: InvalidData (a record not starting with '@', a name not UTF-8) *)
+Theorem c11_fastq_indexer_rejects_with : forall f,
+  fqi_accepts f = false -> snd (index_qfile f) = Some QInvalidData.
+Proof. exact fqi_rejects_with. Qed.
+Print Assumptions c11_fastq_indexer_rejects_with.
+
+(* reader grammar vs indexer grammar: every file the READER accepts whose names are UTF-8 is
+   accepted by the indexer with the same names in the same order; a non-UTF-8 name makes the indexer
+   fail; the converse inclusion fails (truncated record, third line without '+') *)
+Theorem c11_fastq_reader_accepted_is_indexed : forall f recs,
+  fq_parses f recs -> Forall (fun r => utf8_valid (q_name r) = true) recs ->
+  exists irecs, fqi_parses f 0 irecs /\ map qf_name irecs = map q_name recs.
+Proof. exact reader_accepted_is_indexed. Qed.
+Print Assumptions c11_fastq_reader_accepted_is_indexed.
+
+Theorem c11_fastq_non_utf8_name_rejected : forall f recs,
+  fq_parses f recs -> Exists (fun r => utf8_valid (q_name r) = false) recs ->
+  snd (index_qfile f) = Some QInvalidData.
+Proof. exact non_utf8_name_rejected. Qed.
+Print Assumptions c11_fastq_non_utf8_name_rejected.
+
+Theorem c11_fastq_indexer_more_lenient :
+  (snd (index_qfile [64;114;10;65;67;10]) = None /\ snd (read_qfile [64;114;10;65;67;10]) <> None) /\
+  (snd (index_qfile [64;114;10;65;67;10;45;10;33;33;10]) = None /\
+   snd (read_qfile [64;114;10;65;67;10;45;10;33;33;10]) <> None).
+Proof. exact indexer_more_lenient. Qed.
+Print Assumptions c11_fastq_indexer_more_lenient.
+
+(* ---- FASTA writer, outside rec_ok ----
+   desc_ok is necessary: a record whose description is Some "" is written as ">a \nA\n" and read back
+   with description None (the reader trims the description and maps the empty one to None); the same
+   for an untrimmed description.  Such records are not in the image of the reader - no file reads
+   back to them - so this is a precondition of the round trip, not a defect of the writer. *)
+Theorem c11_fasta_writer_empty_description_refuted :
+  write_file 5 [mkfrec [97] (Some []) [65]] = [62; 97; 32; 10; 65; 10]
+  /\ read_file (write_file 5 [mkfrec [97] (Some []) [65]]) = ([mkfrec [97] None [65]], None)
+  /\ read_file (write_file 5 [mkfrec [97] (Some [32; 120]) [65]]) = ([mkfrec [97] (Some [120]) [65]], None).
+Proof. vm_compute. repeat split. Qed.
+Print Assumptions c11_fasta_writer_empty_description_refuted.
